@@ -38,8 +38,10 @@ impl str {
     /// the UTF-8 bytes
     pub uninterp spec fn b(&self) -> Seq<u8>;
 
+    pub open spec fn spec_len(&self) -> usize { self.b().len() as usize }
     #[verifier::external_body]
-    pub fn len(&self) -> (r: usize) ensures r as int == self.b().len(), r <= isize::MAX { unimplemented!() }
+    #[verifier::when_used_as_spec(spec_len)]
+    pub fn len(&self) -> (r: usize) ensures r as int == self.b().len(), r <= isize::MAX, r == self.spec_len() { unimplemented!() }
 
     #[verifier::external_body]
     pub fn as_bytes(&self) -> (r: &[u8]) ensures r@ == self.b(), r@.len() <= isize::MAX { unimplemented!() }
